@@ -539,7 +539,19 @@ class Machine:
         m = re.match(r'^(\w+)\+(\d+)\(FP\)$', s)
         if m:
             return ('fp', int(m.group(2)) - 8, m.group(1))
+        m = re.match(r'^([\w./\-]+)(?:\+(\d+))?\(SB\)$', s)
+        if m:
+            return self.go_data(m.group(1), int(m.group(2) or 0))
         raise AsmUnsupported('operand ' + s)
+
+    def go_data(self, sym, off):
+        """address of a Go-level package variable: its contents are not in the listing; for footprint and dependence
+        questions a read-only region of unknown (public) bytes stands in for it"""
+        name = 'go:' + sym.split('/')[-1]
+        if name not in self.regions:
+            self.regions[name] = Region(name, [0] * 4096, writable=False, kind='godata')
+            self.events.append(('godata', 0, 'assembly addresses the Go variable %s (contents not modelled)' % sym))
+        return Addr(name, off)
 
     def is_mem(self, s):
         return '(' in s
@@ -675,6 +687,9 @@ class Machine:
             m = re.match(r'^(\w+)<>(?:\+(\d+))?\(SB\)$', body)
             if m:
                 return Addr(m.group(1), int(m.group(2) or 0))
+            m = re.match(r'^([\w./\-]+)(?:\+(\d+))?\(SB\)$', body)
+            if m:
+                return self.go_data(m.group(1), int(m.group(2) or 0))
             v = int(body, 0)
             return v & ((1 << width) - 1)
         if s in self.g or s in GPR8:
@@ -1022,6 +1037,55 @@ class Machine:
             a = self.vsrc(A[0], n, pc)
             b = self.vsrc(A[1], n, pc)
             self.vdst(dst, [f(x, y) for x, y in zip(a, b)])
+            return None
+        if op in ('KXNORW', 'KXORW', 'KORW', 'KANDW'):
+            a, b = self.k[int(A[0][1:])], self.k[int(A[1][1:])]
+            if isinstance(a, int) and isinstance(b, int):
+                r = {'KXNORW': ~(a ^ b), 'KXORW': a ^ b, 'KORW': a | b, 'KANDW': a & b}[op] & 0xffff
+            elif op in ('KXNORW', 'KXORW') and A[0] == A[1]:
+                r = 0xffff if op == 'KXNORW' else 0
+            else:
+                r = SEC(64)
+            self.k[int(A[2][1:])] = r
+            return None
+        if op == 'VPMOVZXBD':
+            src = self.vsrc(A[0], (n + 3) // 4, pc)
+            bs = self.lanes_to_bytes(src)[:n]
+            self.vdst(dst, list(bs))
+            return None
+        if op == 'VPMOVDB':
+            cls, idx = self.vreg(A[0])
+            ns = self.vwidth(cls)
+            bs = []
+            for x in self.v[idx][:ns]:
+                bs.append(self.to_bytes(x, 4)[0])
+            bs += [0] * (16 - len(bs))
+            lanes = self.bytes_to_lanes(bs[:16])
+            dcls, didx = self.vreg(A[1])
+            self.vdst(A[1], lanes + [0] * (self.vwidth(dcls) - 4) if self.vwidth(dcls) > 4 else lanes[:self.vwidth(dcls)])
+            return None
+        if op == 'VPGATHERDD':
+            m = re.match(r'^(-?\d+)?\((\w+)\)\(([XYZ]\d+)\*(\d)\)$', A[0])
+            if not m:
+                raise AsmUnsupported('gather operand ' + A[0])
+            disp, base, ireg, scale = int(m.group(1) or 0), self.get_gpr(m.group(2)), m.group(3), int(m.group(4))
+            idx = self.v[self.vreg(ireg)[1]]
+            msk = self.kmask(A[1], n)
+            old = self.v[self.vreg(dst)[1]]
+            out = []
+            for i in range(n):
+                if not msk[i]:
+                    out.append(old[i])
+                    continue
+                if not isinstance(idx[i], int):
+                    self.events.append(('symaddr', pc, 'gather through data-dependent index: ' + ins.text))
+                    out.append(SEC(32) if TAINT[0] else self.from_bytes([self.fresh8('symaddr') for _ in range(4)]))
+                    continue
+                if not isinstance(base, Addr):
+                    raise AsmUnsupported('gather base is not an address')
+                out.append(self.from_bytes(self.mem_read(Addr(base.region, base.off + disp + idx[i] * scale), 4, pc)))
+            self.vdst(dst, out)
+            self.k[int(A[1][1:])] = 0
             return None
         if op == 'VPROLD':
             k = int(A[0][1:], 0)
